@@ -119,7 +119,7 @@ def gen_scenario(rng, i):
         sp = cfg + '/settings.yaml'
         if r < 0.1:
             files[sp] = files[sp].rstrip('\n') + '\n# merchants_file: config/merchants.rules  (not yet)\n'
-        if rng.random() < 0.2:
+        if rng.random() < 0.2 or (i % 8 == 3 and (i // 8) % 2 == 0):
             # a settings file edited on Windows: CRLF line endings (the user's bytes must survive as a prefix)
             files[sp] = files[sp].replace('\n', '\r\n')
         r = rng.random()
@@ -127,7 +127,11 @@ def gen_scenario(rng, i):
         r = {0: 0.12, 3: 0.03, 5: 0.18}.get(i % 8, r)
         if r < 0.07:
             # the key is there but has no value yet
-            files[sp] = files[sp].rstrip('\r\n') + rng.choice(['\nmerchants_file:\n', '\nmerchants_file: null\n', '\nmerchants_file: ""\n', '\nmerchants_file:   # todo\n'])
+            spell = ['\nmerchants_file:\n', '\nmerchants_file: null\n', '\nmerchants_file: ""\n', '\nmerchants_file:   # todo\n', '\nmerchants_file: \n', '\nmerchants_file: ~\n']
+            tail = spell[(i // 16) % len(spell)] if i % 8 == 3 else rng.choice(spell)
+            if '\r\n' in files[sp]:
+                tail = tail.replace('\n', '\r\n')      # the key was typed in the same editor as the rest of the file
+            files[sp] = files[sp].rstrip('\r\n') + tail
         elif r < 0.13:
             # settings.yaml names the legacy CSV itself (that works: a file that is not *.rules is read as CSV rules)
             files[sp] = files[sp].rstrip('\r\n') + ('\r\n' if '\r\n' in files[sp] else '\n') + 'merchants_file: config/merchant_categories.csv\n'
